@@ -161,6 +161,13 @@ registry! {
     "tup(u8,u8,u8,u8)" => (u8, u8, u8, u8); "tup(u64,i64,f32,f64,char)" => (u64, i64, f32, f64, char);
     "tup(u8,u8,u8,u8,u8,u8)" => (u8, u8, u8, u8, u8, u8); "tup(u8,u8,u8,u8,u8,u8,u8)" => (u8, u8, u8, u8, u8, u8, u8);
     "tup(u8,u8,u8,u8,u8,u8,u8,u8)" => (u8, u8, u8, u8, u8, u8, u8, u8);
+    "tup(u8,u8,u8,u8,u8,u8,u8,u8,u8)" => (u8, u8, u8, u8, u8, u8, u8, u8, u8);
+    "tup(u8,u8,u8,u8,u8,u8,u8,u8,u8,u8)" => (u8, u8, u8, u8, u8, u8, u8, u8, u8, u8);
+    "tup(u8,u8,u8,u8,u8,u8,u8,u8,u8,u8,u8)" => (u8, u8, u8, u8, u8, u8, u8, u8, u8, u8, u8);
+    "tup(u8,u8,u8,u8,u8,u8,u8,u8,u8,u8,u8,u8)" => (u8, u8, u8, u8, u8, u8, u8, u8, u8, u8, u8, u8);
+    "tup(u8,u8,u8,u8,u8,u8,u8,u8,u8,u8,u8,u8,u8)" => (u8, u8, u8, u8, u8, u8, u8, u8, u8, u8, u8, u8, u8);
+    "tup(u8,u8,u8,u8,u8,u8,u8,u8,u8,u8,u8,u8,u8,u8)" => (u8, u8, u8, u8, u8, u8, u8, u8, u8, u8, u8, u8, u8, u8);
+    "tup(u8,u8,u8,u8,u8,u8,u8,u8,u8,u8,u8,u8,u8,u8,u8)" => (u8, u8, u8, u8, u8, u8, u8, u8, u8, u8, u8, u8, u8, u8, u8);
     "tup16" => T16;
     "range(u8)" => Range<u8>; "rangeincl(i16)" => RangeInclusive<i16>; "rangefrom(u32)" => RangeFrom<u32>;
     "rangeto(string)" => RangeTo<String>; "rangetoincl(u64)" => RangeToInclusive<u64>; "bound(i32)" => Bound<i32>; "bound(opt(u8))" => Bound<Option<u8>>;
